@@ -8,10 +8,12 @@
        dom : Z -> Prop            the abstract addresses in use
        emb : Z -> list N          their address bytes               unemb : list N -> Z     bytes back to an address
        on dom:  emb injective;  unemb (emb a) = a  (this implies the former: C18_store_enterprise_refines_hypotheses);
-                emb a <> []  (whitelist only);  a <> BAD_ADDR  (the writers that decode an owner string only).
+                emb a <> []  (whitelist only);  addr_parses a = true, i.e. a <> BAD_ADDR and a <> EMPTY_ADDR  (the writers that
+                decode an owner string only).
    No length bound on emb is needed: the three address keys are prefix byte ++ raw address.
    The generated accessors' two conversion arguments are instantiated with
-       bech32      := fun a => if a =? BAD_ADDR then Err ERR_ENT else Ok (emb a)      (= ent_AccAddressFromBech32 of the primitives)
+       bech32      := fun a => if addr_parses a then Ok (emb a) else Err ERR_ENT      (= ent_AccAddressFromBech32 of the primitives
+                                                                                        = es_bech of model/EnterpriseStoreWorld.v)
        addr_string := unemb.
    Rent dom emb s st ("the byte store s represents the abstract state st") is spelled out by
    C18_store_enterprise_refines_relation below.
@@ -24,7 +26,7 @@
      - AddPoTo{Raised,Accepted}Queue: the primitive APPENDS to a list, the store is an id-ordered SET: they agree when the id
        is above every queued id (then the list stays strictly ascending, which the relation demands).
      - AddAddressToWhitelist: the primitive appends; they agree when the address is not whitelisted yet.
-     - SetLockedUndForAccount / SetSpentEFUNDForAccount with an owner that does not parse (BAD_ADDR): the primitive stores,
+     - SetLockedUndForAccount / SetSpentEFUNDForAccount with an owner that does not parse (BAD_ADDR, or the empty string EMPTY_ADDR): the primitive stores,
        the generated code returns the decoding error.
      - GetHighestPurchaseOrderID: the primitive always answers, the generated code fails without the counter cell: the
        relation asks for the cell, the empty store represents nothing, the first related store is the one after genesis.
@@ -127,10 +129,10 @@ Print Assumptions C18_store_enterprise_refines_hypotheses.
 Theorem C18_store_enterprise_refines_wellformed :
   forall (dom : Z -> Prop) (emb : Z -> list N),
   (forall a, dom a -> emb a <> []) ->
-  (forall a, dom a -> a <> BAD_ADDR) ->
+  (forall a, dom a -> addr_parses a = true) ->
   forall (s : okv enterprise_val) (st : ent_state),
   Rent dom emb s st ->
-  okv_sorted s = true /\ ent_wf (fun a => if a =? BAD_ADDR then Err ERR_ENT else Ok (emb a)) s.
+  okv_sorted s = true /\ ent_wf (fun a => if addr_parses a then Ok (emb a) else Err ERR_ENT) s.
 Proof. exact Rent_wf. Qed.
 Print Assumptions C18_store_enterprise_refines_wellformed.
 
@@ -389,11 +391,11 @@ Print Assumptions C18_store_enterprise_refines_SetTotals.
 Theorem C18_store_enterprise_refines_SetLockedUndForAccount :
   forall (dom : Z -> Prop) (emb : Z -> list N),
   (forall a b, dom a -> dom b -> emb a = emb b -> a = b) ->
-  (forall a, dom a -> a <> BAD_ADDR) ->
+  (forall a, dom a -> addr_parses a = true) ->
   forall (s : okv enterprise_val) (w : eworld) (x : go_LockedUnd),
   Rent dom emb s (ew_ent w) -> dom (LockedUnd_Owner x) ->
   match ent_SetLockedUndForAccount w x,
-        go_st_SetLockedUndForAccount (fun a => if a =? BAD_ADDR then Err ERR_ENT else Ok (emb a)) s x with
+        go_st_SetLockedUndForAccount (fun a => if addr_parses a then Ok (emb a) else Err ERR_ENT) s x with
   | Ok a, Ok c => Rent dom emb (fst c) (ew_ent (fst a))
   | Err e, Err e' => e = ERR_ENT /\ e' = STORE_ERR
   | Panic q, Panic q' => q = q'
@@ -405,11 +407,11 @@ Print Assumptions C18_store_enterprise_refines_SetLockedUndForAccount.
 Theorem C18_store_enterprise_refines_SetSpentEFUNDForAccount :
   forall (dom : Z -> Prop) (emb : Z -> list N),
   (forall a b, dom a -> dom b -> emb a = emb b -> a = b) ->
-  (forall a, dom a -> a <> BAD_ADDR) ->
+  (forall a, dom a -> addr_parses a = true) ->
   forall (s : okv enterprise_val) (w : eworld) (x : go_SpentEFUND),
   Rent dom emb s (ew_ent w) -> dom (SpentEFUND_Owner x) ->
   match ent_SetSpentEFUNDForAccount w x,
-        go_st_SetSpentEFUNDForAccount (fun a => if a =? BAD_ADDR then Err ERR_ENT else Ok (emb a)) s x with
+        go_st_SetSpentEFUNDForAccount (fun a => if addr_parses a then Ok (emb a) else Err ERR_ENT) s x with
   | Ok a, Ok c => Rent dom emb (fst c) (ew_ent (fst a))
   | Err e, Err e' => e = e'
   | Panic q, Panic q' => q = q'
@@ -644,12 +646,12 @@ Theorem C18_store_enterprise_refines_steps :
     | OpSetTotalSpent c => do r <- go_st_SetTotalSpentEFUND s c; Ok (fst r, ObUnit)
     | OpGetTotalSpent => do c <- go_st_GetTotalSpentEFUND s; Ok (s, ObCoin c)
     | OpSetLocked x =>
-        do r <- go_st_SetLockedUndForAccount (fun a => if a =? BAD_ADDR then Err ERR_ENT else Ok (emb a)) s x; Ok (fst r, ObUnit)
+        do r <- go_st_SetLockedUndForAccount (fun a => if addr_parses a then Ok (emb a) else Err ERR_ENT) s x; Ok (fst r, ObUnit)
     | OpGetLocked a => do x <- go_st_GetLockedUndForAccount unemb s (emb a); Ok (s, ObLocked x)
     | OpHasLocked a => do b <- go_st_AccountHasLockedUnd s (emb a); Ok (s, ObBool b)
     | OpAllLocked => do l <- go_st_GetAllLockedUnds s; Ok (s, ObLockeds l)
     | OpSetSpent x =>
-        do r <- go_st_SetSpentEFUNDForAccount (fun a => if a =? BAD_ADDR then Err ERR_ENT else Ok (emb a)) s x; Ok (fst r, ObUnit)
+        do r <- go_st_SetSpentEFUNDForAccount (fun a => if addr_parses a then Ok (emb a) else Err ERR_ENT) s x; Ok (fst r, ObUnit)
     | OpGetSpent a => do x <- go_st_GetSpentEFUNDForAccount unemb s (emb a); Ok (s, ObSpent x)
     | OpHasSpent a => do b <- go_st_AccountHasSpentEFUND s (emb a); Ok (s, ObBool b)
     | OpAllSpent => do l <- go_st_GetAllSpentEFUNDs s; Ok (s, ObSpents l)
@@ -701,7 +703,7 @@ Theorem C18_store_enterprise_refines_step :
   (forall a b, dom a -> dom b -> emb a = emb b -> a = b) ->
   (forall a, dom a -> unemb (emb a) = a) ->
   (forall a, dom a -> emb a <> []) ->
-  (forall a, dom a -> a <> BAD_ADDR) ->
+  (forall a, dom a -> addr_parses a = true) ->
   forall (s : okv enterprise_val) (w : eworld) (o : eop),
   Rent dom emb s (ew_ent w) -> op_ok dom w o ->
   match astep emb w o, cstep emb unemb s o with
@@ -719,7 +721,7 @@ Theorem C18_store_enterprise_refines_history :
   (forall a b, dom a -> dom b -> emb a = emb b -> a = b) ->
   (forall a, dom a -> unemb (emb a) = a) ->
   (forall a, dom a -> emb a <> []) ->
-  (forall a, dom a -> a <> BAD_ADDR) ->
+  (forall a, dom a -> addr_parses a = true) ->
   forall (ops : list eop) (s : okv enterprise_val) (w : eworld),
   Rent dom emb s (ew_ent w) -> ops_ok dom emb w ops ->
   Forall2 (fun oa oc => match oa, oc with
@@ -749,7 +751,7 @@ Theorem C18_store_enterprise_refines_nonvacuous :
   ( (forall a b, 0 <= a < 255 -> 0 <= b < 255 -> ex_emb a = ex_emb b -> a = b) /\
     (forall a, 0 <= a < 255 -> ex_unemb (ex_emb a) = a) /\
     (forall a, 0 <= a < 255 -> ex_emb a <> []) /\
-    (forall a, 0 <= a < 255 -> a <> BAD_ADDR) ) /\
+    (forall a, 0 <= a < 255 -> addr_parses a = true) ) /\
   ( (forall a b, ex_emb_all a = ex_emb_all b -> a = b) /\
     (forall a, ex_unemb_all (ex_emb_all a) = a) /\
     (forall a, ex_emb_all a <> []) ) /\
@@ -840,6 +842,14 @@ Theorem C18_store_enterprise_refines_needs_parsing_owner :
          [OpSetLocked (mk_go_LockedUnd BAD_ADDR (1, 5)); OpSetSpent (mk_go_SpentEFUND BAD_ADDR (1, 5))]) = [Err 30; Err 30].
 Proof. exact SetLockedUndForAccount_owner_refuted. Qed.
 Print Assumptions C18_store_enterprise_refines_needs_parsing_owner.
+
+Theorem C18_store_enterprise_refines_needs_nonempty_owner :
+  fst (run (astep ex_emb) ex_w0 [OpSetLocked (mk_go_LockedUnd EMPTY_ADDR (1, 5)); OpSetSpent (mk_go_SpentEFUND EMPTY_ADDR (1, 5))]) =
+    [Ok ObUnit; Ok ObUnit] /\
+  fst (run (cstep ex_emb ex_unemb) ex_s0
+         [OpSetLocked (mk_go_LockedUnd EMPTY_ADDR (1, 5)); OpSetSpent (mk_go_SpentEFUND EMPTY_ADDR (1, 5))]) = [Err 30; Err 30].
+Proof. exact SetLockedUndForAccount_empty_owner_refuted. Qed.
+Print Assumptions C18_store_enterprise_refines_needs_nonempty_owner.
 
 (* ids outside [0, 2^64): -5 converts to 0, 2^64 wraps to 0 *)
 Theorem C18_store_enterprise_refines_needs_id_range :
